@@ -1435,8 +1435,11 @@ class Authenticated(BaseClientHandler):
                 results = await self.mbox.search(
                     cmd.search_key, cmd.uid_command, cmd.timeout_cm
                 )
+                # mailbox-data = "SEARCH" *(SP nz-number): no blank at the end
+                # of the line when nothing was found.
+                #
                 await self.client.push(
-                    f"* SEARCH {' '.join(str(x) for x in results)}\r\n"
+                    f"* SEARCH{''.join(f' {x}' for x in results)}\r\n"
                 )
             except MailboxInconsistency as e:
                 self.optional_resync = False
